@@ -8,6 +8,20 @@ import (
 	"github.com/rs/zerolog"
 )
 
+// Errors of the per-box parsers, built once: a file can hold hundreds of
+// thousands of boxes too short for their type, and errors.Wrap records a call
+// stack (about 340 bytes) every time it runs.
+var (
+	errReadUint16        = errors.Wrap(ErrBufLength, "readUint16")
+	errReadUUID          = errors.Wrap(ErrBufLength, "readUUID")
+	errReadFlags         = errors.Wrap(ErrBufLength, "readFlags")
+	errReadHdlr          = errors.Wrap(ErrBufLength, "readHdlr")
+	errPRVWBoxDiscard    = errors.Wrap(ErrBufLength, "readPRVWBoxDiscard")
+	errPRVWBoxPeek       = errors.Wrap(ErrBufLength, "readPRVWBoxPeek")
+	errPreviewBoxPeek    = errors.Wrap(ErrBufLength, "parsePreviewBoxPeek")
+	errPreviewBoxDiscard = errors.Wrap(ErrBufLength, "parsePreviewBoxDiscard")
+)
+
 // box is an ISOBMFF box
 type box struct {
 	size    int64
@@ -130,7 +144,7 @@ func (b *box) readInnerBox() (inner box, next bool, err error) {
 func (b *box) readUint16() (uint16, error) {
 	buf, err := b.Peek(2)
 	if err != nil {
-		return 0, errors.Wrap(ErrBufLength, "readUint16")
+		return 0, errReadUint16
 	}
 	_, err = b.Discard(2)
 	return bmffEndian.Uint16(buf[:2]), err
@@ -140,7 +154,7 @@ func (b *box) readUint16() (uint16, error) {
 func (b *box) readUUID() (u meta.UUID, err error) {
 	buf, err := b.Peek(16)
 	if err != nil {
-		return u, errors.Wrap(ErrBufLength, "readUUID")
+		return u, errReadUUID
 	}
 	if err = u.UnmarshalBinary(buf); err != nil {
 		return u, err
@@ -192,7 +206,7 @@ type flags uint32
 func (b *box) readFlags() error {
 	buf, err := b.Peek(4)
 	if err != nil {
-		return errors.Wrap(ErrBufLength, "readFlags")
+		return errReadFlags
 	}
 	b.readFlagsFromBuf(buf)
 	_, err = b.Discard(4)
